@@ -187,5 +187,19 @@ Fixpoint nodes_loop (fuel : nat) (pol : policy) (started : bool) (dir : bytes) (
 Definition nodes_of (pol : policy) (inp : list elem) : list (anode * bytes) :=
   nodes_loop (S (length inp)) pol false dir0 inp.
 
+(* how the decoding of the whole sequence ends: true = end of archive, false = error *)
+Fixpoint nodes_end_loop (fuel : nat) (pol : policy) (started : bool) (dir : bytes) (inp : list elem) : bool :=
+  match fuel with
+  | O => false
+  | S f =>
+      match archive_next pol started dir inp with
+      | NNode _ _ dir' rest => nodes_end_loop f pol true dir' rest
+      | NEnd => true
+      | NErr => false
+      end
+  end.
+Definition nodes_end (pol : policy) (inp : list elem) : bool :=
+  nodes_end_loop (S (length inp)) pol false dir0 inp.
+
 (* a relative clean path from its components: "." for none *)
 Definition rel (cs : list bytes) : bytes := match cs with [] => [dot] | _ :: _ => join47 cs end.
